@@ -2,6 +2,7 @@ package main
 
 import (
 	"fmt"
+	"go/token"
 	"go/types"
 	"strings"
 
@@ -177,6 +178,95 @@ func runC10(c *Ctx) {
 			ok := got == `Sprintf("%q: %d"|string(tokMap.TypeMap[i+1])|int(i+1))` || got == `Sprintf("%q: %d"|tokMap.TypeMap[i+1]|i+1)`
 			c.Ob("R10.5", "idMap entry i is the %q of typeMap entry i with number i", ok, fmt.Sprintf("entry = %s %s; the typeMap list prints each name with %%q, so the key must be %%q of the same name and the value its index — then Id and Type are mutually inverse (witness for the old \"%%s\": terminal \"\\\"\" gave Type(Id(t)) = INVALID)", got, out.Undecided), p.FnPos(tm))
 		}
+	}
+	// the list behind Id() is the very list the lexer and parser columns were numbered by: the data handed to the
+	// template has TypMap = tokMap.TypeMap itself (not a re-spelled copy) and IdMap = typeMap(tokMap)
+	if gt := p.Func("internal/token/gen/golang", "GenToken"); gt != nil {
+		data := executeData(p, gt, 0)
+		if mi, ok := data.(*ssa.MakeInterface); ok {
+			data = mi.X
+		}
+		var cell ssa.Value
+		if u, ok := data.(*ssa.UnOp); ok && u.Op == token.MUL {
+			cell = u.X
+		}
+		fields := map[string]ssa.Value{}
+		if cell != nil {
+			for _, ref := range *cell.Referrers() {
+				fa, ok := ref.(*ssa.FieldAddr)
+				if !ok {
+					continue
+				}
+				for _, r2 := range *fa.Referrers() {
+					if st, ok := r2.(*ssa.Store); ok && st.Addr == ssa.Value(fa) {
+						fields[fieldVar(fa).Name()] = st.Val
+					}
+				}
+			}
+		}
+		var describe func(v ssa.Value) string
+		describe = func(v ssa.Value) string {
+			switch x := v.(type) {
+			case nil:
+				return "(not set)"
+			case *ssa.Slice:
+				if x.Low == nil && x.High == nil && x.Max == nil {
+					return describe(x.X)
+				}
+			case *ssa.UnOp:
+				if fa, ok := x.X.(*ssa.FieldAddr); ok && x.Op == token.MUL {
+					if prm, ok := fa.X.(*ssa.Parameter); ok {
+						return "param#" + fmt.Sprint(paramIndex(gt, prm)) + "." + fieldVar(fa).Name()
+					}
+				}
+			case *ssa.Call:
+				// an element-for-element copy of the list is the list: append(<empty>, list...)
+				if bi, ok := x.Call.Value.(*ssa.Builtin); ok && bi.Name() == "append" && len(x.Call.Args) == 2 {
+					empty := false
+					switch b := x.Call.Args[0].(type) {
+					case *ssa.Const:
+						empty = b.Value == nil
+					case *ssa.MakeSlice:
+						if l, ok := b.Len.(*ssa.Const); ok && l.Value != nil && l.Value.ExactString() == "0" {
+							empty = true
+						}
+					case *ssa.Slice:
+						if a, ok := b.X.(*ssa.Alloc); ok {
+							if arr, ok := a.Type().Underlying().(*types.Pointer).Elem().Underlying().(*types.Array); ok && arr.Len() == 0 {
+								empty = true
+							}
+						}
+					}
+					if empty {
+						return describe(x.Call.Args[1])
+					}
+				}
+				if f := x.Call.StaticCallee(); f != nil {
+					as := []string{}
+					for _, a := range x.Call.Args {
+						if prm, ok := a.(*ssa.Parameter); ok {
+							as = append(as, "param#"+fmt.Sprint(paramIndex(gt, prm)))
+						} else {
+							as = append(as, "?")
+						}
+					}
+					return f.Name() + "(" + strings.Join(as, ",") + ")"
+				}
+			}
+			return v.Name() + " = " + v.String()
+		}
+		ti := -1
+		for i, prm := range gt.Params {
+			if strings.HasSuffix(prm.Type().String(), "token.TokenMap") {
+				ti = i
+			}
+		}
+		gotT, gotI := describe(fields["TypMap"]), describe(fields["IdMap"])
+		wantT, wantI := fmt.Sprintf("param#%d.TypeMap", ti), fmt.Sprintf("typeMap(param#%d)", ti)
+		c.Ob("R10.5", "GenToken: the template is given the token map's own lists", ti >= 0 && gotT == wantT && gotI == wantI,
+			fmt.Sprintf("TypMap = %s, IdMap = %s; required TypMap = %s (the list whose indices are the lexer's and the parser's token numbers, spelled as the symbol table spells them) and IdMap = %s", gotT, gotI, wantT, wantI), p.FnPos(gt))
+	} else {
+		c.Undecided("R10.5", "GenToken", "function not found")
 	}
 	// the template prints TypMap with %q and IdMap entries verbatim: covered by the splice analysis
 	fnd := checkSpliceSafety(c, p, "R10.5s")
